@@ -127,14 +127,14 @@ SHARDS.update({
     "urwid/vterm.py:TermCanvas.sgi_to_attrspec": (6, 4),
 })
 
-# TextCanvas.content on canvases of two / three spelled-out rows (contracts/C02_content.py): every row window x every column
-# window x with / without a map; ~3 min / ~10 min on one core
+# TextCanvas.content (contracts/C02_content.py): one row in full generality (~190 paths, ~30 s on one core); two rows over the
+# whole width (quick); every row window x every column window x with / without a map of two / three rows: ~3 min / ~10 min on one core
 SHARDS.update({
-    "urwid/canvas.py:TextCanvas.content": (6, 8),  # one row: ~190 paths, ~30 s on one core
-    "urwid/canvas.py:TextCanvas.content#two-rows": (8, 8),
+    "urwid/canvas.py:TextCanvas.content": (6, 8),
+    "urwid/canvas.py:TextCanvas.content#two-rows-any-columns": (8, 8),
     "urwid/canvas.py:TextCanvas.content#three-rows": (16, 10),
 })
-THOROUGH_ONLY += ("urwid/canvas.py:TextCanvas.content#three-rows",)
+THOROUGH_ONLY += ("urwid/canvas.py:TextCanvas.content#two-rows-any-columns", "urwid/canvas.py:TextCanvas.content#three-rows")
 
 SHARDS.update({
     # (three functions of ~20 s each on one core: two shards keep each below the critical path of the property's
